@@ -72,10 +72,14 @@ type c14Event struct {
 }
 
 // raFrame builds an RA from router j with the given option list.
-func raFrame(j int, ra refdec.RA) []byte {
+func raFrame(j int, ra refdec.RA) []byte { return raFrameFrom(j, ra, c14Routers[j].mac) }
+
+// raFrameFrom: router j's advertisement sent from Ethernet address src (the router's own, or another one when the router's
+// hardware was replaced or a standby took over its address).
+func raFrameFrom(j int, ra refdec.RA, src refdec.MAC) []byte {
 	rt := c14Routers[j]
 	dst := netip.MustParseAddr("ff02::1")
-	return refdec.Ether(refdec.MAC{0x33, 0x33, 0, 0, 0, 1}, rt.mac, 0x86dd, 0, refdec.IP6(refdec.IP6Hdr{Next: 58, Hop: 255, Src: rt.ip, Dst: dst, PayloadLen: -1},
+	return refdec.Ether(refdec.MAC{0x33, 0x33, 0, 0, 0, 1}, src, 0x86dd, 0, refdec.IP6(refdec.IP6Hdr{Next: 58, Hop: 255, Src: rt.ip, Dst: dst, PayloadLen: -1},
 		refdec.ICMP6(rt.ip, dst, refdec.NDPRouterAdvert, 0, ra.Body())))
 }
 
